@@ -3,7 +3,12 @@
 //!   after synchronisation in both directions both replicas read the same document, every element that is present in at
 //!   least one of the two concurrent versions appears, and NO element appears twice — neither inside one array nor in two
 //!   different arrays (an element that concurrent edits placed in several arrays appears in exactly one of them).
-//! No commit is made after the merge (committing with an array in conflict hangs on this version: C08, out of scope).
+//! commit:<a>|<b>:<A|B>  after the synchronisation one replica stages an UNRELATED change and commits (the commit resolves the
+//!   array conflicts), the other melds + refreshes: both read the same arrays, unchanged by the commit, nothing lost.
+//! observer:<a>|<b>  a third replica reads WHILE the arrays have two leaves; the author of the winning todo version then
+//!   inserts y9 after its first element and commits; the observer melds + refreshes: it reads what a replica that received
+//!   everything at once reads.   observer-edits:<a>|<b>  the observer itself submits its read with y9 inserted and commits:
+//!   it reads back what it submitted, and so do a reopened replica and a replica that melds it.
 use crate::Report;
 use melda::adapter::Adapter;
 use melda::melda::Melda;
@@ -105,10 +110,189 @@ fn check_seq(sa: &[Ver], sb: &[Ver]) -> Result<(), String> {
     match r { Ok(x) => x, Err(p) => Err(format!("panic: {}", p)) }
 }
 
+type Rep = (Melda, Arc<RwLock<Box<dyn Adapter>>>);
+
+fn mk() -> Result<Rep, String> {
+    let ad: Box<dyn Adapter> = Box::new(MemoryAdapter::new());
+    let ad = Arc::new(RwLock::new(ad));
+    Ok((Melda::new(ad.clone()).map_err(|e| e.to_string())?, ad))
+}
+
+fn sync(dst: &mut Melda, src: &Melda) -> Result<(), String> {
+    dst.meld(src).map_err(|e| format!("meld: {}", e))?;
+    dst.refresh().map_err(|e| format!("refresh: {}", e))
+}
+
+/// base committed by A, taken by B, both submit their version and commit (no exchange yet)
+fn diverged(a: &Ver, b: &Ver) -> Result<(Rep, Rep), String> {
+    let (ra, aa) = mk()?;
+    let (mut rb, ab) = mk()?;
+    ra.update(doc(&["k1", "k2", "k3"], &["k4"])).map_err(|e| e.to_string())?;
+    ra.commit(None).map_err(|e| e.to_string())?;
+    sync(&mut rb, &ra)?;
+    ra.update(doc(&a.0, &a.1)).map_err(|e| e.to_string())?;
+    ra.commit(None).map_err(|e| e.to_string())?;
+    rb.update(doc(&b.0, &b.1)).map_err(|e| e.to_string())?;
+    rb.commit(None).map_err(|e| e.to_string())?;
+    Ok(((ra, aa), (rb, ab)))
+}
+
+fn arrays(m: &Melda, who: &str) -> Result<(Vec<String>, Vec<String>), String> {
+    let d = m.read(None).map_err(|e| format!("read {}: {}", who, e))?;
+    Ok((ids(&d, TODO), ids(&d, DONE)))
+}
+
+/// every element exactly once; present iff deleted by nobody
+fn complete(t: &[String], d: &[String], a: &Ver, b: &Ver, extra: &[&str]) -> Result<(), String> {
+    let mut seen = BTreeSet::new();
+    for x in t.iter().chain(d.iter()) {
+        if !seen.insert(x.clone()) {
+            return Err(format!("element {} appears more than once: todo={:?} done={:?}", x, t, d));
+        }
+    }
+    let base: BTreeSet<&str> = ["k1", "k2", "k3", "k4"].into_iter().collect();
+    let in_a: BTreeSet<&str> = a.0.iter().chain(a.1.iter()).cloned().collect();
+    let in_b: BTreeSet<&str> = b.0.iter().chain(b.1.iter()).cloned().collect();
+    for x in in_a.union(&in_b) {
+        let deleted = base.contains(x) && (!in_a.contains(x) || !in_b.contains(x));
+        if !deleted && !seen.contains(*x) {
+            return Err(format!("element {} is in a concurrent version, was deleted by nobody, but is missing: todo={:?} done={:?}", x, t, d));
+        }
+        if deleted && seen.contains(*x) {
+            return Err(format!("element {} was deleted by one replica but reappears: todo={:?} done={:?}", x, t, d));
+        }
+    }
+    for x in extra {
+        if !seen.contains(*x) {
+            return Err(format!("element {} inserted afterwards is missing: todo={:?} done={:?}", x, t, d));
+        }
+    }
+    Ok(())
+}
+
+/// (a) after the two-way synchronisation one replica stages an UNRELATED change and commits (the commit resolves the array
+/// conflicts automatically); the other melds + refreshes: same arrays on both, unchanged by the commit, nothing lost
+fn check_commit(a: &Ver, b: &Ver, committer_is_a: bool) -> Result<(), String> {
+    let (a, b) = (a.clone(), b.clone());
+    let r = super::guarded(move || -> Result<(), String> {
+        let ((mut ra, _), (mut rb, _)) = diverged(&a, &b)?;
+        sync(&mut ra, &rb)?;
+        sync(&mut rb, &ra)?;
+        let before = arrays(&ra, "A before the commit")?;
+        {
+            let (c, o) = if committer_is_a { (&mut ra, &mut rb) } else { (&mut rb, &mut ra) };
+            c.create_object("note", json!({"unrelated": true}).as_object().unwrap().clone()).map_err(|e| e.to_string())?;
+            c.commit(None).map_err(|e| format!("commit with the arrays in conflict: {}", e))?.ok_or("commit returned None")?;
+            if c.in_conflict().iter().any(|o| o.starts_with('^')) {
+                return Err(format!("an array is still in conflict after the commit: {:?}", c.in_conflict()));
+            }
+            sync(o, c)?;
+        }
+        let (ta, tb) = (arrays(&ra, "A")?, arrays(&rb, "B")?);
+        if ta != tb {
+            return Err(format!("replicas differ after the resolving commit was exchanged: A todo={:?} done={:?} / B todo={:?} done={:?}", ta.0, ta.1, tb.0, tb.1));
+        }
+        if ta != before {
+            return Err(format!("the commit (with an unrelated change) changed the arrays: before todo={:?} done={:?}, after todo={:?} done={:?}", before.0, before.1, ta.0, ta.1));
+        }
+        complete(&ta.0, &ta.1, &a, &b, &[])
+    });
+    match r { Ok(x) => x, Err(p) => Err(format!("panic: {}", p)) }
+}
+
+fn with_y(t: &[String]) -> Vec<String> {
+    let mut v = t.to_vec();
+    v.insert(1.min(v.len()), "y9".to_string());
+    v
+}
+
+/// (b) an observer reads WHILE the arrays have two leaves; then the author of the winning todo version inserts y9 after its
+/// first element and commits; the observer melds + refreshes and reads: same as a replica that received everything at once
+fn check_observer(a: &Ver, b: &Ver) -> Result<(), String> {
+    let (a, b) = (a.clone(), b.clone());
+    let r = super::guarded(move || -> Result<(), String> {
+        let ((ra, _), (rb, _)) = diverged(&a, &b)?;
+        let (mut o, _) = mk()?;
+        o.meld(&ra).map_err(|e| e.to_string())?;
+        o.meld(&rb).map_err(|e| e.to_string())?;
+        o.refresh().map_err(|e| e.to_string())?;
+        let during = arrays(&o, "observer during the conflict")?;
+        let desc = format!("^\u{221A}@{}", TODO);
+        let winner = o.get_winner(&desc).map_err(|e| format!("get_winner({}): {}", desc, e))?;
+        let author = if ra.get_winner(&desc).map_err(|e| e.to_string())? == winner { &ra } else { &rb };
+        let own = arrays(author, "author")?;
+        let next: Vec<String> = with_y(&own.0);
+        let nt: Vec<&str> = next.iter().map(|s| s.as_str()).collect();
+        let nd: Vec<&str> = own.1.iter().map(|s| s.as_str()).collect();
+        author.update(doc(&nt, &nd)).map_err(|e| e.to_string())?;
+        author.commit(None).map_err(|e| e.to_string())?.ok_or("follow-up commit returned None")?;
+        sync(&mut o, author)?;
+        let got = arrays(&o, "observer after the follow-up")?;
+        let (mut f, _) = mk()?;
+        f.meld(&ra).map_err(|e| e.to_string())?;
+        f.meld(&rb).map_err(|e| e.to_string())?;
+        f.refresh().map_err(|e| e.to_string())?;
+        let want = arrays(&f, "replica that received everything at once")?;
+        if got != want {
+            return Err(format!(
+                "the observer (read during the conflict: todo={:?} done={:?}) reads todo={:?} done={:?} after the author's follow-up edit, a replica that received everything at once reads todo={:?} done={:?}",
+                during.0, during.1, got.0, got.1, want.0, want.1
+            ));
+        }
+        let mut seen = BTreeSet::new();
+        for x in got.0.iter().chain(got.1.iter()) {
+            if !seen.insert(x.clone()) {
+                return Err(format!("element {} appears more than once: todo={:?} done={:?}", x, got.0, got.1));
+            }
+        }
+        if !seen.contains("y9") {
+            return Err(format!("the inserted element y9 is missing: todo={:?} done={:?}", got.0, got.1));
+        }
+        Ok(())
+    });
+    match r { Ok(x) => x, Err(p) => Err(format!("panic: {}", p)) }
+}
+
+/// (b') the replica that read during the conflict submits its own read with y9 inserted and commits; a reopened replica
+/// and a replica that melds it read the same arrays as the author, which are the submitted ones
+fn check_observer_edits(a: &Ver, b: &Ver) -> Result<(), String> {
+    let (a, b) = (a.clone(), b.clone());
+    let r = super::guarded(move || -> Result<(), String> {
+        let ((ra, _), (rb, _)) = diverged(&a, &b)?;
+        let (mut o, oad) = mk()?;
+        o.meld(&ra).map_err(|e| e.to_string())?;
+        o.meld(&rb).map_err(|e| e.to_string())?;
+        o.refresh().map_err(|e| e.to_string())?;
+        let during = arrays(&o, "observer during the conflict")?;
+        let next = with_y(&during.0);
+        let nt: Vec<&str> = next.iter().map(|s| s.as_str()).collect();
+        let nd: Vec<&str> = during.1.iter().map(|s| s.as_str()).collect();
+        o.update(doc(&nt, &nd)).map_err(|e| e.to_string())?;
+        o.commit(None).map_err(|e| format!("commit with the arrays in conflict: {}", e))?.ok_or("commit returned None")?;
+        let own = arrays(&o, "author after its commit")?;
+        if own != (next.clone(), during.1.clone()) {
+            return Err(format!("after the commit the author reads todo={:?} done={:?} but submitted todo={:?} done={:?}", own.0, own.1, next, during.1));
+        }
+        let re = Melda::new(oad.clone()).map_err(|e| format!("reopen: {}", e))?;
+        let got = arrays(&re, "reopened replica")?;
+        if got != own {
+            return Err(format!("a replica reopened on the author's storage reads todo={:?} done={:?}, the author todo={:?} done={:?}", got.0, got.1, own.0, own.1));
+        }
+        let (mut f, _) = mk()?;
+        sync(&mut f, &o)?;
+        let got = arrays(&f, "melded replica")?;
+        if got != own {
+            return Err(format!("a replica that melded the author reads todo={:?} done={:?}, the author todo={:?} done={:?}", got.0, got.1, own.0, own.1));
+        }
+        Ok(())
+    });
+    match r { Ok(x) => x, Err(p) => Err(format!("panic: {}", p)) }
+}
+
 pub fn run(_thorough: bool, _seed: u64) -> Report {
     let mut rep = Report::new(
         "cross_array",
-        "base todo=[k1,k2,k3] done=[k4]; every ordered pair of 9 concurrent versions (moves between the two arrays, appends, prepends, reorder, removals, swap), synchronised in both directions",
+        "base todo=[k1,k2,k3] done=[k4]; every ordered pair of 9 concurrent versions (moves between the two arrays, appends, prepends, reorder, removals, swap), synchronised in both directions; the same pairs with a resolving commit by A or by B, and (72 pairs of different versions) with an observer that reads during the conflict before the winning author's follow-up edit, or that edits and commits itself",
         "exhaustive over the 81 ordered pairs; non-trivial = the two versions differ",
     );
     let vs = versions();
@@ -127,6 +311,31 @@ pub fn run(_thorough: bool, _seed: u64) -> Report {
         rep.case(&key, true);
         if let Err(w) = check_seq(&sa, &sb) {
             rep.fail(&format!("pair:{}", key), json!({"two_step": name}), &w);
+        }
+    }
+    // the conflict is resolved by a commit / observed before a follow-up edit
+    for (na, a) in &vs {
+        for (nb, b) in &vs {
+            for committer_is_a in [true, false] {
+                let key = format!("commit:{}|{}:{}", na, nb, if committer_is_a { "A" } else { "B" });
+                rep.case(&key, na != nb);
+                if let Err(w) = check_commit(a, b, committer_is_a) {
+                    rep.fail(&key, json!({"kind": "commit", "a": na, "b": nb, "committer_is_a": committer_is_a}), &w);
+                }
+            }
+            if na == nb {
+                continue;
+            }
+            let key = format!("observer:{}|{}", na, nb);
+            rep.case(&key, true);
+            if let Err(w) = check_observer(a, b) {
+                rep.fail(&key, json!({"kind": "observer", "a": na, "b": nb}), &w);
+            }
+            let key = format!("observer-edits:{}|{}", na, nb);
+            rep.case(&key, true);
+            if let Err(w) = check_observer_edits(a, b) {
+                rep.fail(&key, json!({"kind": "observer-edits", "a": na, "b": nb}), &w);
+            }
         }
     }
     rep
@@ -151,7 +360,12 @@ pub fn replay(case: &Value) -> Value {
     let vs = versions();
     let find = |n: &str| vs.iter().find(|(k, _)| *k == n).map(|(_, v)| v.clone());
     match (find(case["input"]["a"].as_str().unwrap_or("")), find(case["input"]["b"].as_str().unwrap_or(""))) {
-        (Some(a), Some(b)) => match check(&a, &b) { Ok(()) => json!({"reproduced": false}), Err(w) => json!({"reproduced": true, "what": w}) },
+        (Some(a), Some(b)) => match match case["input"]["kind"].as_str() {
+            Some("commit") => check_commit(&a, &b, case["input"]["committer_is_a"].as_bool().unwrap_or(true)),
+            Some("observer") => check_observer(&a, &b),
+            Some("observer-edits") => check_observer_edits(&a, &b),
+            _ => check(&a, &b),
+        } { Ok(()) => json!({"reproduced": false}), Err(w) => json!({"reproduced": true, "what": w}) },
         _ => json!({"reproduced": false, "error": "unknown version name"}),
     }
 }
